@@ -393,4 +393,80 @@ def cleanUpTmp (k : K) : K := { k with tmps := [] }
 /-- a clean reopen (`Close` runs `finalize`, which syncs the open batch) -/
 def reopen (cfg : Cfg) (o : Oracle) (k : K) : K := recover (tick cfg o k)
 
+
+/-! ## one process running several API calls, stopped at any system call (C12)
+
+`Api` is what a client of the tree does; `runApi` runs the calls one after the other in ONE process with a running
+system-call index, so that the oracle `crashAt n` stops the process at the `n`-th call of the whole sequence — also
+between two calls that no hook point of the code separates.  `crashImages` lists what a reopened tree can look like
+after a process kill at each of these points (index = number of calls of the undisturbed run: the process survived). -/
+
+inductive Api
+  | put (a : Nat) (d : Bytes)
+  | batch (items : List (Nat × Bytes))
+  | del (a : Nat)
+  deriving DecidableEq, Repr
+
+def applyApi (cfg : Cfg) (o : Oracle) (k : K) : Api → K × Out
+  | .put a d => put cfg o k a d
+  | .batch items => putBatch cfg o k items
+  | .del a => delete o k a
+
+def runApi (cfg : Cfg) (o : Oracle) (k : K) (ops : List Api) : K := ops.foldl (fun k op => (applyApi cfg o k op).1) k
+
+/-- the oracle "stop at system call `n`" (a write in progress has appended `p` bytes) -/
+def crashAt (n p : Nat) : Oracle := fun i => if i = n then some (.crash p) else none
+
+def crashImages (cfg : Cfg) (k : K) (ops : List Api) : List K :=
+  (List.range ((runApi cfg noFault k ops).n + 1)).map fun n => cleanUpTmp (recover (runApi cfg (crashAt n 0) k ops))
+
+/-! ## the portable writer as a step machine: concurrent callers of `genericWriter.writeData`
+
+One step = one system call of one caller (the code between two hook points `fstree.after.generic.*`).  A schedule
+is a list of caller indices; `gsched` runs it.  Every prefix of a schedule followed by `recover` is a crash point of
+that interleaving. -/
+
+inductive GPhase
+  | atOpen (i : Nat)                    -- about to `open(p#i, O_CREATE|O_EXCL)`
+  | atWrite (i ino : Nat)                -- `p#i` is open (inode `ino`), about to `write`
+  | atClose (i ino : Nat) (wok : Bool)   -- written (`wok`: completely), about to `close`
+  | atRename (i ino : Nat)               -- about to `rename(p#i, p)`
+  | atReturn                                  -- about to return an error
+  | done (ok : Bool)                     -- returned
+  deriving DecidableEq, Repr
+
+/-- attempts `p#0 … p#4` -/
+def genericRetries : Nat := 5
+
+def gstep (o : Oracle) (k : K) (a : Nat) (d : Bytes) : GPhase → K × GPhase
+  | .atOpen i =>
+    let r := sysOpenExcl o k (a, i)
+    match r.2.1 with
+    | .ok => (r.1, .atWrite i r.2.2)
+    | .eexist => (r.1, if i + 1 < genericRetries then .atOpen (i + 1) else .atReturn)
+    | .err => (r.1, .atReturn)
+  | .atWrite i ino => let w := sysWrite o k ino d; (w.1, .atClose i ino w.2)
+  | .atClose i ino wok => let c := sysSync o k; (c.1, if wok && c.2 then .atRename i ino else .atReturn)
+  | .atRename i ino => let r := sysRename o k (a, i) ino a; (r.1, .done r.2)
+  | .atReturn => (k, .done false)
+  | .done ok => (k, .done ok)
+
+/-- one caller of `Put` on the portable writer -/
+structure GW where
+  a : Nat
+  d : Bytes
+  ph : GPhase := .atOpen 0
+  deriving DecidableEq, Repr
+
+def gschedStep (o : Oracle) (s : K × List GW) (n : Nat) : K × List GW :=
+  match s.2[n]? with
+  | none => s
+  | some w => let r := gstep o s.1 w.a w.d w.ph; (r.1, s.2.set n { w with ph := r.2 })
+
+def gsched (o : Oracle) (k : K) (ws : List GW) (sched : List Nat) : K × List GW := sched.foldl (gschedStep o) (k, ws)
+
+/-- the schedule that lets every caller run to its end, one caller after the other (a caller makes at most
+5 opens, a write, a close, a rename and a return) -/
+def gfinishSched (n : Nat) : List Nat := (List.range n).flatMap fun i => List.replicate 12 i
+
 end NeoFS.FSTree
